@@ -13,7 +13,8 @@ ID = "C04"
 RUNS = {"quick": 10000, "thorough": 150000}
 BUDGET_S = {"quick": 60, "thorough": 900}
 RULE = ("seeded scenario scripts biased to backlog >= A+P+3, long tasks and bursts, 1..3 workers on one broker server; "
-        "a run is non-trivial if two deliveries overlapped inside callback() or a fault fired; distinct = distinct "
+        "12% of the runs use run_receiver_task with one or two listen() failures while tasks are in flight (bound judged per receiver "
+        "session); a run is non-trivial if two deliveries overlapped inside callback() or a fault fired; distinct = distinct "
         "interleaving signature (ordered (event kind, delivery ordinal, node) with times erased)")
 
 KNOBS = {
